@@ -61,3 +61,31 @@ def check_owned(run, rid, prog, cls, ctor, what):
                            "place when a basis context opens or closes, so the state handed out is transformed twice (and "
                            "writing into it changes the stored evolution) - %s" % (cls.name, ctor, shared, what),
                    loc=fn.loc(fn.node), sample={"data_arguments": [norm(e) for e in srcs]})
+
+
+def check_axis_lookup(run, rid, prog, floor=12):
+    """The index look-ups of ValueAxis (locate, nearest) and the construction of its points are translation covariant:
+    affine typing (qv/affine.py) with the points of the axis (start, data[k], min, max, the value looked up) as points,
+    the step as displacement and the length as a pure number.  `abs(val - k*step)` - the distance to the k-th point of an
+    axis that starts at zero - is ill-typed; on an axis with start >= step/2 it makes nearest() return the next point."""
+    from ..affine import AffineTyper, P, V, S
+    cls = prog.cls("quantarhei.core.valueaxis.ValueAxis")
+    attrs = {"self.start": P, "self.data": P, "self.min": P, "self.max": P, "self.step": V, "self.length": S}
+    n = 0
+    for nme, params in (("__init__", {"start": P, "length": S, "step": V}), ("locate", {"val": P}), ("nearest", {"val": P})):
+        f = cls.methods[nme]
+        prog.consulted.add(f.relpath)
+        names = [a.arg for a in f.node.args.args[1:]]
+        if sorted(names) != sorted(params):
+            raise AnalysisError("ValueAxis.%s: parameters %s, expected %s" % (nme, names, sorted(params)))
+        ty = AffineTyper(attrs, params)
+        ty.block(f.node.body)
+        n += ty.nchecked
+        run.obligation(rid, f.short, not ty.errors, key="translation-covariant",
+                       message="ValueAxis.%s forms `%s`: %s.  Points of an axis enter index arithmetic through differences only; this "
+                               "expression is right for axes that start at zero - on an axis with a non-zero start the index handed "
+                               "out belongs to a neighbouring point (at(t) and apply(t, rho) then return the value of another time)"
+                               % (nme, norm(ty.errors[0][0])[:60] if ty.errors else "", ty.errors[0][1] if ty.errors else ""),
+                       loc=f.loc(ty.errors[0][0]) if ty.errors else f.loc(f.node), sample={"expressions_typed": ty.nchecked})
+    if n < floor:
+        raise AnalysisError("ValueAxis look-ups: only %d expressions typed (%d confirmed)" % (n, floor))
